@@ -159,7 +159,7 @@ def ensure_build():
 
 
 # ----------------------------------------------------------------------------- stage B
-TWIN_VARIANTS = ('base', 'nft', 'gt1', 'lgt', 'ngt', 'gt2', 'lock', 'nft', 'mig', 'lgt', 'ngt', 'gt2')
+TWIN_VARIANTS = ('base', 'nft', 'gt1', 'lgt', 'ngt', 'gt2', 'lock', 'nft', 'mig', 'lgt', 'ngt', 'gt2', 'lgt', 'gt1')
 
 
 def _gen_worker(args):
@@ -244,7 +244,7 @@ def ensure_corr(seed, tier, build):
     work = os.path.join(CACHE, 'work')
     os.makedirs(work, exist_ok=True)
     n_main = 320 if tier == 'quick' else 2400
-    n_twin = 96 if tier == 'quick' else 640
+    n_twin = 112 if tier == 'quick' else 640
     n_wrap = 64 if tier == 'quick' else 480
     res = {'seed': seed, 'tier': tier, 'disagreements': [], 'violations': [], 'stats': {}, 'samples': [], 'errors': []}
     corp = corpus_histories()
@@ -333,9 +333,10 @@ def ensure_corr(seed, tier, build):
                 # sub-step completes; in the single-call run that is the first call, whose random
                 # stream has already handed out one seed - a legitimately different NFT outcome.
                 # Compare everything except the NFT outcome (SFT kinds, fee refunds).
-                ft = HA.nft0[0]
-                ba = {k: x for k, x in ba.items() if k[1] not in (5, ft)}
-                bb = {k: x for k, x in bb.items() if k[1] not in (5, ft)}
+                # fee asset: the deployed one and whatever setNftCost made of it
+                fts = {HA.nft0[0]} | {(vv or {}).get(('nftCost', None), [HA.nft0[0]])[0] for vv in (va, vb)}
+                ba = {k: x for k, x in ba.items() if k[1] != 5 and k[1] not in fts}
+                bb = {k: x for k, x in bb.items() if k[1] != 5 and k[1] not in fts}
                 va = {k: x for k, x in va.items() if k[0] not in ('wonNft', 'confirmedNft')}
                 vb = {k: x for k, x in vb.items() if k[0] not in ('wonNft', 'confirmedNft')}
             if va != vb or ba != bb:
